@@ -116,6 +116,10 @@ def gen(rng, tier):
     case['late_method'] = rng.random() < 0.5
   if rng.random() < 0.25:
     case['dyn'] = {'seed': rng.getrandbits(32)}
+  if rng.random() < 0.3:
+    case['late_ref'] = {'scope': rng.choice(['', 's1', 's1/s2']),
+                        'evaluate': rng.random() < 0.5,
+                        'shape': rng.choice(['flat', 'list', 'dict'])}
   return case
 
 
@@ -440,6 +444,49 @@ def run(case):
           'the same bindings applied in another order give a different text '
           '(first difference at line %d):\n--- order 1\n%s\n--- order 2\n%s' %
           (first, S, S_other))
+  # ---- a reference written with a short name that a later registration makes
+  # ambiguous -----------------------------------------------------------------------
+  if case.get('late_ref') and not viol:
+    lr = case['late_ref']
+
+    def reg3(with_late):
+      world.reset()
+      for full in ['ma.g', 'h'] + (['mb.g'] if with_late else []):
+        register_one(full)
+    reg3(False)
+    ref = '@%sg%s' % (lr['scope'] + '/' if lr['scope'] else '',
+                      '()' if lr['evaluate'] else '')
+    value = {'flat': ref, 'list': '[%s, 1]' % ref,
+             'dict': "{'k': (%s,)}" % ref}[lr['shape']]
+    try:
+      gin.parse_config('h.a = %s' % value)
+      register_one('mb.g')
+      S3 = cs()
+    except Exception as e:  # pylint: disable=broad-except
+      S3 = None
+      v('C06.config_str_available', ['reference-made-ambiguous',
+                                     type(e).__name__],
+        "'h.a = %s' parsed while `g` was unique, then mb.g was registered: "
+        'config_str() raised %s: %s' % (value, type(e).__name__,
+                                        probes.scrub(str(e))[:300]))
+    if S3 is not None:
+      log.add('late_ref', S3)
+      reg3(True)
+      try:
+        gin.parse_config(S3)
+        got = gin.query_parameter('rootmod.h.a')
+        while not hasattr(got, 'configurable'):
+          got = got['k'] if isinstance(got, dict) else got[0]
+        if got.configurable.selector != 'ma.g' or \
+            '/'.join(got.scopes) != lr['scope'] or \
+            got.evaluate != lr['evaluate']:
+          v('C06.round_trip', ['reference-made-ambiguous'],
+            'after the round trip h.a refers to %r (scopes %r), written as %s '
+            'for ma.g\n%s' % (got.configurable.selector, got.scopes, ref, S3))
+      except Exception as e:  # pylint: disable=broad-except
+        v('C06.always_parses', ['reference-made-ambiguous', type(e).__name__],
+          'config_str() does not parse in a reset world: %s: %s\n%s' %
+          (type(e).__name__, probes.scrub(str(e))[:300], S3))
   # ---- dynamic registration share -------------------------------------------------
   if case.get('dyn') and not viol:
     _dynamic(case, v, log, stats)
